@@ -15,10 +15,10 @@ def run_config(chk, tier, cfgname):
     chk.not_decided += ["C01-C05 on the continued history after a caught panic as a behavioural statement (follows "
                         "from the invariants holding at unwinding exits, which is what is checked)",
                         "leaks (not double frees) of the object whose destructor panicked"]
-    typestate.apply(chk, "mark_one-unwind-rows", "mark_one", aspects=("safety",))
-    typestate.apply(chk, "sweep_one-unwind-rows", "sweep_one", aspects=("safety",))
-    typestate.apply(chk, "drop_all-unwind-rows", "drop_all", aspects=("safety",))
-    typestate.apply(chk, "callback-unwind-rows", "root_paths", aspects=("safety",))
+    typestate.apply(chk, "mark_one-unwind-rows", "mark_one", aspects=("safety", "once", "weak", "unwind"))
+    typestate.apply(chk, "sweep_one-unwind-rows", "sweep_one", aspects=("safety", "once", "weak", "unwind"))
+    typestate.apply(chk, "drop_all-unwind-rows", "drop_all", aspects=("safety", "once", "weak", "unwind"))
+    typestate.apply(chk, "callback-unwind-rows", "root_paths", aspects=("safety", "once", "weak", "unwind"))
     nun = sum(1 for name in ("mark_one", "sweep_one", "drop_all", "root_paths") for r in T.get(name)
               for o in r.outs if o.kind == "unwind")
     chk.floor("unwind-outcomes-explored", nun, 20)
